@@ -231,6 +231,17 @@ def changeVartypeWith [Add R] [Mul R] [Zero R] [One R] (t : VarTable R) (m : Cqm
 
 def changeVartype (m : CqmC Rat) (vt : VT4) (v : Nat) : Option (CqmC Rat) := m.changeVartypeWith cqmTable vt v
 
+/-- `spin_to_binary(inplace=True)` (`constrained.py` / `quadratic_model.py`): `for v in variables: if vartype(v) is SPIN:
+    change_vartype(BINARY, v)` — over the given variable indices, in order -/
+def spinToBinaryOver [Add R] [Mul R] [Zero R] [One R] (t : VarTable R) (m : CqmC R) (idxs : List Nat) : CqmC R :=
+  idxs.foldl (fun m v =>
+    if (m.info[v]?.map (·.vt)) = some VT4.spin then (m.changeVartypeWith t .binary v).getD m else m) m
+
+def spinToBinaryWith [Add R] [Mul R] [Zero R] [One R] (t : VarTable R) (m : CqmC R) : CqmC R :=
+  spinToBinaryOver t m (List.range m.info.length)
+
+def spinToBinary (m : CqmC Rat) : CqmC Rat := m.spinToBinaryWith cqmTable
+
 end CqmC
 
 /-! ## `pyBQM.change_vartype` -/
@@ -522,6 +533,31 @@ def sampleMap (T : ViewTables R) (view : VT) (d : LBqm R) (x : R) : R :=
   if view = d.vt then x else (tbl T view).sampleMul * x + (tbl T view).sampleAdd
 
 end View
+
+/-! ## `SampleSet.change_vartype` (`sampleset.py`)
+
+The record's `sample` matrix and `energy` vector; every other vector, the labels and `info` are not touched by the
+method.  A sample set that is still pending (`from_future`) defers exactly this call through its result hook. -/
+
+structure SSet (R : Type) where
+  vt : VT
+  rows : List (List R)
+  energy : List R
+
+/-- `change_vartype(vartype, energy_offset)` on a resolved sample set: `if energy_offset: energy += energy_offset`, then
+    `2*sample - 1` (→ SPIN) or `(sample + 1) // 2` (→ BINARY; exact on spin values) -/
+def SSet.changeVartype [Add R] [Sub R] [Mul R] [Div R] [Zero R] [One R] [DecidableEq R]
+    (s : SSet R) (target : VT) (energyOffset : R) : SSet R :=
+  let energy := if energyOffset ≠ 0 then s.energy.map (· + energyOffset) else s.energy
+  if target = s.vt then { s with energy }
+  else match target with
+    | .spin => { vt := .spin, rows := s.rows.map (·.map fun x => two * x - 1), energy }
+    | .binary => { vt := .binary, rows := s.rows.map (·.map fun x => (x + 1) / two), energy }
+
+/-- the deferred form: the hook of a pending sample set applies the same call, with the same arguments, once resolved -/
+def SSet.changeVartypeDeferred [Add R] [Sub R] [Mul R] [Div R] [Zero R] [One R] [DecidableEq R]
+    (pending : Unit → SSet R) (target : VT) (energyOffset : R) : Unit → SSet R :=
+  fun u => (pending u).changeVartype target energyOffset
 
 /-! ## `ising_to_qubo` / `qubo_to_ising` (`utilities.py`) -/
 
